@@ -354,6 +354,30 @@ def r13_2_reconcile_dominates(ctx, rule: str = 'R13.2', only_modules: Optional[S
             else:
                 obs.append(violation(rule, t, f.loc(pr['node']), key=f"{_fn(f)}::prologue-shape",
                                      detail=f"rebinds {sorted(pr['rebound'])} from {sorted(pr['sources'])}; ok={pr['ok']}"))
+        if pr is not None and pr['ok']:
+            # nothing is read from a train before it is reconciled: a spike count, an edge or the spikes themselves taken in
+            # front of the prologue describe the caller's raw train (unsorted, repeated or out-of-range spike times), the
+            # kernels see the reconciled one
+            early = []
+            for st_ in f.node.body[:pr['index']]:
+                for x in ast.walk(st_):
+                    if isinstance(x, ast.Attribute) and isinstance(x.value, ast.Name) and x.value.id in pr['rebound'] \
+                            and x.attr in ('spikes', 't_start', 't_end', 'get_spikes_non_empty', 'sort', 'copy'):
+                        early.append((x, f"`{ast.unparse(x)}`"))
+                    elif isinstance(x, ast.Call) and isinstance(x.func, ast.Name) and x.func.id == 'len' and len(x.args) == 1 \
+                            and isinstance(x.args[0], ast.Name) and x.args[0].id in pr['rebound']:
+                        early.append((x, f"`{ast.unparse(x)}`"))
+                    elif isinstance(x, ast.Subscript) and isinstance(x.value, ast.Name) and x.value.id in pr['rebound'] \
+                            and x.value.id in tps and not f.node.args.vararg:
+                        pass
+            t = (f"{f.name}: nothing is read from a train in front of the Reconcile prologue (spike counts, edges and spike times "
+                 f"are those of the reconciled trains)")
+            if not early:
+                obs.append(ok(rule, t, f.loc(pr['node']), construct=f"{_fn(f)}::no-early-read"))
+            else:
+                obs.append(violation(rule, t, f.loc(early[0][0]), key=f"{_fn(f)}::read-before-reconcile::{ast.unparse(early[0][0])[:50]}",
+                                     detail=f"{early[0][1]} is evaluated before the trains are reconciled" +
+                                            (f" (+{len(early) - 1} more)" if len(early) > 1 else '')))
         if not is_public:
             continue
         bad = need[f.qual]
